@@ -54,7 +54,7 @@ func ruleV9(c *Ctx, id string) {
 			for _, b := range sc.Fn.Blocks {
 				for _, in := range b.Instrs {
 					call, ok := in.(*ssa.Call)
-					if !ok || call.Call.StaticCallee() == nil || !IsRepoFunc(call.Call.StaticCallee()) {
+					if !ok || staticCallee(call) == nil || !IsRepoFunc(staticCallee(call)) {
 						continue
 					}
 					var cookie ssa.Value
@@ -70,7 +70,7 @@ func ruleV9(c *Ctx, id string) {
 					}
 					// only calls that lead to a directory scan (decoding entries) use the cookie as an offset
 					if dec := P.Func("dir.decodeDirEnt"); dec != nil {
-						if !P.Reach([]*ssa.Function{call.Call.StaticCallee()}, func(f *ssa.Function) bool { return !IsRepoFunc(f) })[dec] {
+						if !P.Reach([]*ssa.Function{staticCallee(call)}, func(f *ssa.Function) bool { return !IsRepoFunc(f) })[dec] {
 							continue
 						}
 					}
@@ -362,7 +362,7 @@ func ruleV2(c *Ctx, id string) {
 			op, a, b := cd.Op, cd.X, cd.Y
 			isN := func(v ssa.Value) bool {
 				cl, ok := stripConv(v).(*ssa.Call)
-				return ok && cl.Call.StaticCallee() != nil && cl.Call.StaticCallee().Name() == "NInode"
+				return ok && staticCallee(cl) != nil && staticCallee(cl).Name() == "NInode"
 			}
 			if a == nil || b == nil {
 				return false, false
@@ -389,7 +389,7 @@ func ruleV2(c *Ctx, id string) {
 		var roots []ssa.Value
 		for _, b := range fn.Blocks {
 			for _, in := range b.Instrs {
-				if call, ok := in.(*ssa.Call); ok && call.Call.StaticCallee() == mk {
+				if call, ok := in.(*ssa.Call); ok && staticCallee(call) == mk {
 					roots = append(roots, call)
 				}
 			}
@@ -567,7 +567,7 @@ func ruleV3(c *Ctx, id string) {
 							return false, false
 						}
 						call, ok := cd.X.(*ssa.Call)
-						if !ok || call.Call.StaticCallee() != sumOv {
+						if !ok || staticCallee(call) != sumOv {
 							return false, false
 						}
 						// (the test may be made by a predicate helper that is handed the two operands)
@@ -634,7 +634,11 @@ func ruleV4(c *Ctx, id string) {
 		}
 		n++
 		R.Analysed[FuncName(cs.Caller)] = true
-		args := callCommon(cs.Instr).Args
+		args := fullArgs(cs.Instr)
+		if len(args) < 5 {
+			R.Undecided(id, fmt.Sprintf("%s|Write(count,data)", FuncName(cs.Caller)), P.Pos(cs.Instr.Pos()), "the arguments of the call of Inode.Write can be identified", "unexpected argument list")
+			continue
+		}
 		cnt, dat := args[3], stripConv(args[4])
 		key := fmt.Sprintf("%s|Write(count,data)", FuncName(cs.Caller))
 		if internal {
@@ -663,11 +667,11 @@ func ruleV4(c *Ctx, id string) {
 			var fromEnc func(d ssa.Value, depth int) bool
 			fromEnc = func(d ssa.Value, depth int) bool {
 				d = stripConv(d)
-				if dc, isC := d.(*ssa.Call); isC && dc.Call.StaticCallee() != nil {
-					if cal := dc.Call.StaticCallee(); cal.Name() == "Finish" && funcPkg(cal) != nil && strings.HasSuffix(funcPkg(cal).Path(), "tchajed/marshal") && len(dc.Call.Args) > 0 {
+				if dc, isC := d.(*ssa.Call); isC && staticCallee(dc) != nil {
+					if cal := staticCallee(dc); cal.Name() == "Finish" && funcPkg(cal) != nil && strings.HasSuffix(funcPkg(cal).Path(), "tchajed/marshal") && len(dc.Call.Args) > 0 {
 						// the encoder is written out in place: enc := marshal.NewEnc(k); ...; enc.Finish()
 						for src := range bwdSources(dc.Call.Args[0]) {
-							if nc, isN := src.(*ssa.Call); isN && nc.Call.StaticCallee() != nil && nc.Call.StaticCallee().Name() == "NewEnc" {
+							if nc, isN := src.(*ssa.Call); isN && staticCallee(nc) != nil && staticCallee(nc).Name() == "NewEnc" {
 								if sz, isk := constInt(nc.Call.Args[0]); isk {
 									return sz == k
 								}
@@ -675,7 +679,7 @@ func ruleV4(c *Ctx, id string) {
 						}
 						return false
 					}
-					_, capEnc, _ := codecOps(dc.Call.StaticCallee())
+					_, capEnc, _ := codecOps(staticCallee(dc))
 					return capEnc == k
 				}
 				pm, isP := d.(*ssa.Parameter)
@@ -1065,7 +1069,7 @@ func ruleKind(c *Ctx, id string) {
 	var fromHandleD func(v ssa.Value, depth int) bool
 	fromHandleD = func(v ssa.Value, depth int) bool {
 		for _, p := range producers(v) {
-			cal := p.call.Call.StaticCallee()
+			cal := staticCallee(p.call)
 			if cal == V.GetInodeFh {
 				return true
 			}
